@@ -86,6 +86,17 @@ fn directed_scripts(corpus: &[String], rng: &mut Rng) -> Vec<(String, Script)> {
                 delays: vec![], checked_build: checked }));
         }
     }
+    // depth limits beyond the depth cap on tiny positions (iterations fly by there)
+    for f in ["8/8/4k3/8/8/4K3/8/8 w - - 0 1", "8/8/8/3k4/8/3K4/8/8 w - - 0 1", "k1p5/p1p5/P1P5/8/7p/p1p5/P1P4P/K1P5 w - - 0 1", "8/2k5/8/8/8/8/3K4/8 b - - 0 1"] {
+        for d in [65u8, 66, 100, 255] {
+            for checked in [false, true] {
+                let r = Root { fen: f.into(), moves: vec![] };
+                v.push((format!("deep-limit-on-tiny/{f}/depth{d}/checked={checked}"), Script {
+                    cmds: vec![Cmd::Position(r.clone()), Cmd::GoDepth(d), Cmd::Wait, Cmd::IsReady, Cmd::Position(r.clone()), Cmd::GoDepth(3), Cmd::Await, Cmd::NewGame, Cmd::Position(r), Cmd::GoDepth(2), Cmd::Wait, Cmd::Quit],
+                    delays: vec![], checked_build: checked }));
+            }
+        }
+    }
     let _ = (corpus, rng);
     v
 }
@@ -369,6 +380,8 @@ pub fn replay_session(prop: &str, case: &Value, out: &mut Out) {
 // C13: time budget
 
 struct TimeCase {
+    /// `movetime` given together with the four clock parameters (either order)
+    both: u8,
     /// stretch the window between creating the timer thread and raising the running flag (ms)
     delay_ms: u64,
     white_to_move: bool,
@@ -381,15 +394,26 @@ struct TimeCase {
 
 impl TimeCase {
     fn cmd(&self) -> String {
+        match (self.both, self.movetime) {
+            (1, Some(m)) => return format!("go movetime {m} wtime {} btime {} winc {} binc {}", self.w, self.b, self.wi, self.bi),
+            (2, Some(m)) => return format!("go wtime {} btime {} winc {} binc {} movetime {m}", self.w, self.b, self.wi, self.bi),
+            _ => {}
+        }
         match self.movetime {
             Some(m) => format!("go movetime {m}"),
             None => format!("go wtime {} btime {} winc {} binc {}", self.w, self.b, self.wi, self.bi),
         }
     }
     fn json(&self) -> Value {
-        json!({"kind":"time","white_to_move":self.white_to_move,"cmd":self.cmd(),"wtime":self.w,"btime":self.b,"winc":self.wi,"binc":self.bi,"movetime":self.movetime,"delay_ms":self.delay_ms})
+        json!({"kind":"time","white_to_move":self.white_to_move,"cmd":self.cmd(),"wtime":self.w,"btime":self.b,"winc":self.wi,"binc":self.bi,"movetime":self.movetime,"delay_ms":self.delay_ms,"both":self.both})
     }
     fn available(&self) -> u64 {
+        if self.both > 0 {
+            // a fixed move time given together with clocks: the explicit move time is the limit
+            // (whether a clock smaller than the move time should also bind is not stated by the
+            // property, so it is not demanded)
+            return self.movetime.unwrap_or(u64::MAX);
+        }
         match self.movetime {
             Some(m) => m,
             None => {
@@ -429,13 +453,13 @@ fn gen_time_case(rng: &mut Rng) -> TimeCase {
         }
     };
     if rng.chance(1, 6) {
-        return TimeCase { delay_ms: 0, white_to_move: rng.chance(1, 2), w: 0, b: 0, wi: 0, bi: 0, movetime: Some(match rng.below(4) { 0 => rng.range(0, 6), 1 => rng.range(0, 500), 2 => rng.range(500, 100_000), _ => rng.range(0, 60) }) };
+        return TimeCase { both: 0, delay_ms: 0, white_to_move: rng.chance(1, 2), w: 0, b: 0, wi: 0, bi: 0, movetime: Some(match rng.below(4) { 0 => rng.range(0, 6), 1 => rng.range(0, 500), 2 => rng.range(500, 100_000), _ => rng.range(0, 60) }) };
     }
     let w = clock(rng);
     let b = clock(rng);
     let wi = inc(rng, w);
     let bi = inc(rng, b);
-    TimeCase { delay_ms: 0, white_to_move: rng.chance(1, 2), w, b, wi, bi, movetime: None }
+    TimeCase { both: 0, delay_ms: 0, white_to_move: rng.chance(1, 2), w, b, wi, bi, movetime: None }
 }
 
 fn c13_one(out: &mut Out, sess: &mut Option<Session>, checked: bool, tc: &TimeCase, wall_limit_for_wait: u64) {
@@ -597,12 +621,12 @@ pub fn worker_c13(shard: usize, _nshards: usize, seed: u64, tier: &str, out: &mu
     let fixed: Vec<TimeCase> = {
         let mut v = vec![];
         for (w, wi) in [(1000u64, 0u64), (0, 0), (7499, 0), (7500, 0), (7501, 0), (100, 5000), (149, 0), (150, 0), (151, 0), (8000, 0), (60000, 1000), (10, 100000), (7400, 1), (1, 149), (1, 150), (1, 151)] {
-            v.push(TimeCase { delay_ms: 0, white_to_move: true, w, b: 60000, wi, bi: 0, movetime: None });
-            v.push(TimeCase { delay_ms: 0, white_to_move: false, w: 60000, b: w, wi: 0, bi: wi, movetime: None });
+            v.push(TimeCase { both: 0, delay_ms: 0, white_to_move: true, w, b: 60000, wi, bi: 0, movetime: None });
+            v.push(TimeCase { both: 0, delay_ms: 0, white_to_move: false, w: 60000, b: w, wi: 0, bi: wi, movetime: None });
         }
         for m in [0u64, 1, 2, 3, 4, 5, 6, 10, 100, 499] {
-            v.push(TimeCase { delay_ms: 0, white_to_move: m % 2 == 0, w: 0, b: 0, wi: 0, bi: 0, movetime: Some(m) });
-            v.push(TimeCase { delay_ms: 60, white_to_move: m % 2 == 1, w: 0, b: 0, wi: 0, bi: 0, movetime: Some(m) });
+            v.push(TimeCase { both: 0, delay_ms: 0, white_to_move: m % 2 == 0, w: 0, b: 0, wi: 0, bi: 0, movetime: Some(m) });
+            v.push(TimeCase { both: 0, delay_ms: 60, white_to_move: m % 2 == 1, w: 0, b: 0, wi: 0, bi: 0, movetime: Some(m) });
         }
         v
     };
@@ -638,6 +662,16 @@ pub fn worker_c13(shard: usize, _nshards: usize, seed: u64, tier: &str, out: &mu
             out.end();
             continue;
         }
+        if i % 11 == 10 {
+            // a fixed move time together with clocks
+            tc.both = 1 + (i % 2) as u8;
+            tc.movetime = Some(match rng.below(3) { 0 => rng.range(0, 50), 1 => rng.range(50, 400), _ => rng.range(400, 5000) });
+            if rng.chance(1, 2) {
+                tc.w = rng.range(10_000, 600_000);
+                tc.b = rng.range(10_000, 600_000);
+            }
+            out.add("cases_with_move_time_and_clocks", 1);
+        }
         out.begin(&tc.json());
         let checked = i % 5 == 4;
         if checked {
@@ -668,6 +702,7 @@ pub fn run_c13(tier: &str, seed: u64) -> i32 {
         let mut o2 = Out::open(res.to_str().unwrap());
         let c = &v["case"];
         let tc = TimeCase {
+            both: c["both"].as_u64().unwrap_or(0) as u8,
             delay_ms: c["delay_ms"].as_u64().unwrap_or(0),
             white_to_move: c["white_to_move"].as_bool().unwrap_or(true),
             w: c["wtime"].as_u64().unwrap_or(0), b: c["btime"].as_u64().unwrap_or(0),
@@ -698,11 +733,13 @@ pub fn run_c13(tier: &str, seed: u64) -> i32 {
     chk.need("announcements timed", agg.c("announcements_timed"), 50);
     chk.need("cases on the debug-assertions build", agg.c("time_cases_on_checked_build"), 50);
     chk.need("cases with the timer window stretched", agg.c("cases_with_stretched_timer_window"), 50);
+    chk.need("cases with a move time and clocks together", agg.c("cases_with_move_time_and_clocks"), 50);
     finalize(chk, &agg)
 }
 
 pub fn replay_c13(case: &Value, out: &mut Out) {
     let tc = TimeCase {
+        both: case["both"].as_u64().unwrap_or(0) as u8,
         delay_ms: case["delay_ms"].as_u64().unwrap_or(0),
         white_to_move: case["white_to_move"].as_bool().unwrap_or(true),
         w: case["wtime"].as_u64().unwrap_or(0), b: case["btime"].as_u64().unwrap_or(0),
@@ -752,6 +789,12 @@ const C12_CRAFTED: &[&str] = &[
     "4k3/8/8/8/8/8/8/4K3 w - - 0 1",
     "n1n5/PPPk4/8/8/8/8/4Kppp/5N1N b - - 0 1",
     "rnbqkbnr/ppp1pppp/8/8/3pP3/8/PPPP1PPP/RNBQKBNR b KQkq e3 0 3",
+    "4k3/8/8/1Pp5/8/8/1Pp5/6K1 w - c6 0 2",
+    "4k3/8/8/1Pp5/8/1Pp5/8/6K1 w - c6 0 2",
+    "4k3/8/8/1Pp5/1Pp5/8/8/6K1 w - c6 0 2",
+    "6k1/8/8/8/1pP5/8/1pP5/4K3 b - c3 0 2",
+    "6k1/1pP5/8/8/1pP5/8/8/4K3 b - c3 0 2",
+    "4k3/8/8/PpP5/8/PpP5/8/6K1 w - b6 0 2",
 ];
 
 fn c12_root(corpus: &[String], rng: &mut Rng, i: usize) -> Root {
@@ -786,8 +829,17 @@ fn c12_root(corpus: &[String], rng: &mut Rng, i: usize) -> Root {
                 if p.b[o::sq(cf, r5) as usize] == o::mk(o::PAWN, w) {
                     let mut q = p.clone();
                     let r2 = if w { 1 } else { 6 };
+                    // ... on a random rank, with an enemy pawn beside it on the en-passant file
+                    let r2 = if rng.chance(1, 2) { r2 } else { [1, 2, 3, 5, 6][rng.below(5)] };
                     if q.b[o::sq(cf, r2) as usize] == o::EMPTY {
                         q.b[o::sq(cf, r2) as usize] = o::mk(o::PAWN, w);
+                        if rng.chance(2, 3) && q.b[o::sq(ef, r2) as usize] == o::EMPTY && r2 != 0 && r2 != 7 {
+                            let mut q2 = q.clone();
+                            q2.b[o::sq(ef, r2) as usize] = o::mk(o::PAWN, !w);
+                            if q2.is_sane() {
+                                q = q2;
+                            }
+                        }
                         if q.is_sane() {
                             return Root { fen: fen::render6(&q, 0, 1), moves: vec![] };
                         }
